@@ -94,7 +94,7 @@ def snapshots(commands, global_decls=False):
 DEFAULTS = dict(ncmds=(8, 26), p_push=0.12, p_pop=0.10, p_check=0.22, named=0.0, nested_named=0.0, defines=0.0,
                 queries=(), q_prob=0.7, unsat_bias=0.3, all_named=False, max_live=14, max_depth=3, big=0.15, max_push=4,
                 reassert=0.12, value_terms=True, final_check=True, clausal=0.35, bool_args=True, allow_let=True, reenter=0.25, horn=0.3, hard3=0.25,
-                uf_heavy=0.4, dl_dense=0.5, la_dense=0.3, ax_dense=0.5, uf_dense=0.4, term_reuse=True)
+                uf_heavy=0.4, dl_dense=0.5, la_dense=0.3, ax_dense=0.5, uf_dense=0.4, term_reuse=True, subst=0.04, nconsts=None)
 
 
 class HistGen:
@@ -118,7 +118,7 @@ class HistGen:
         pp0 = gen.PROFILES[prof]
         self.uf_dense = False
         self.la_dense = bool(pp0['nums']) and not pp0['dl'] and self.o['clausal'] > 0 and rng.random() < self.o['la_dense']
-        self.sig = gen.make_signature(rng, prof, self.o['bool_args'], nconsts=(5, 8) if self.horn else ((4, 6) if self.dl_dense else ((3, 4) if self.la_dense else (2, 4))))
+        self.sig = gen.make_signature(rng, prof, self.o['bool_args'], nconsts=self.o['nconsts'] or ((5, 8) if self.horn else ((4, 6) if self.dl_dense else ((3, 4) if self.la_dense else (2, 4)))))
         # "uf-dense" mode: decided after the signature is known (needs a function U x .. x U -> U)
         if pp0['uf'] and not pp0['arrays'] and self.o['clausal'] > 0 and any(f[2] in self.sig.sorts and all(a == f[2] for a in f[1]) for f in self.sig.funs):
             self.uf_dense = rng.random() < self.o['uf_dense'] and not (self.la_dense or self.dl_dense)
@@ -346,7 +346,7 @@ class HistGen:
         if k == 'cycle':
             s = r.choice(p['nums'])
             vs = self.sig.consts[s]
-            n = min(len(vs), r.randint(2, 3))
+            n = min(len(vs), r.choice([2, 3, 3, 4, 5, 6]))
             xs = [T('var', s, val=v) for v in r.sample(vs, n)]
             out = []
             for i in range(n):
@@ -533,6 +533,19 @@ class HistGen:
                     break
             elif r.random() < o['defines']:
                 self.emit_define()
+            elif gen.PROFILES[self.prof]['nums'] and not gen.PROFILES[self.prof]['dl'] and r.random() < o['subst'] and self.n_live() < o['max_live']:
+                # top-level equalities that the arithmetic preprocessing turns into substitutions: a variable fixed to a constant
+                # (often a big one) next to a linear equation that contains it
+                sort = r.choice(gen.PROFILES[self.prof]['nums'])
+                vs = self.sig.consts[sort]
+                if len(vs) >= 2:
+                    xn, yn = r.sample(vs, 2)
+                    x, y = T('var', sort, val=xn), T('var', sort, val=yn)
+                    c = self.tg.const(sort)
+                    k = T('num', sort, val=Fraction(r.choice([1, 2, 3, -1, -2])))
+                    rhs = self.tg.numeric(sort, 1)
+                    self.emit_assert(T('app', 'Bool', head='=', args=[x, c]))
+                    self.emit_assert(T('app', 'Bool', head='=', args=[T('app', sort, head='+', args=[T('app', sort, head='*', args=[k, x]), y]), rhs]))
             elif self.n_live() < o['max_live']:
                 u = r.random()
                 if u < o['unsat_bias']:
